@@ -514,7 +514,14 @@ impl Model {
     }
     fn check_handle(&self, tid: u128, live: bool, reply: &Reply) -> Result<(), Violation> {
         match reply {
-            Reply::Handle(b) if *b == live => Ok(()),
+            Reply::Handle(None) if !live => Ok(()),
+            Reply::Handle(Some(a)) if live => {
+                let dest = self.txs[self.live_idx(tid).unwrap()].dest;
+                if *a != dest {
+                    return Err(v("C18", "peer_address", "mut_request_transaction", format!("peer_address() of {tid:#x} through the mutable handle is {a}, request was sent to {dest}")));
+                }
+                Ok(())
+            }
             o => Err(v("C05", "outstanding_bookkeeping", "mut_request_transaction", format!("mut_request_transaction({tid:#x}) answered {}, model says outstanding={live}", o.short()))),
         }
     }
